@@ -186,6 +186,7 @@ def run(ctx):
     ctx.rule("R05.d", "every flush call of a flushing scope is dominated by the restore of the batching flag", floor=3)
     ctx.rule("R05.e", "when a field is set temporarily for every element of a collection and restored in a loop over the same collection, every iteration of the restoring loop reaches the restore", floor=1)
     ctx.rule("R05.f", "in a context manager that saved a field and writes the saved value back, the write-back is passed on every exit after the yield (normal or exceptional)", floor=4)
+    ctx.rule("R05.i", "in every @contextmanager, each write to object state (attribute/subscript store) made after the yield on the normal way out is also made on the way out of a failing body", floor=5)
     ctx.rule("R05.g", "a self-resetting Event is reset even when a watcher raises during the assignment: in Event.__set__ the reset is passed on the exceptional exit of super().__set__", floor=1)
     ctx.rule("R05.h", "a failing flush leaves no events behind: every exceptional exit of the flush passes a reset of both queues", floor=1)
     ctx.rule("R05.m", "update model: Parameters._update interpreted abstractly (entry batching flag x key orders incl. an Event key x a rejected or unknown key at every position x a value identical to the current one, 60 cases): flag restored, flush exactly once iff outermost and after the restore, keys applied in order up to the failing one, Event mode and reset, complete previous-values mapping", floor=1)
@@ -366,6 +367,24 @@ def _event_and_flush_rules(ctx):
                     bad = True
                     break
                 stack.extend(t for l, t in n.succ)
+        # the exceptional continuation must not put already-dequeued events/watchers back
+        seen, stack, requeue = set(), [t for l, t in en.succ if l == "e"], None
+        while stack and requeue is None:
+            n = stack.pop()
+            if n.id in seen:
+                continue
+            seen.add(n.id)
+            for fld in ("_events", "_state_watchers"):
+                wr = any(ctx.facts.field_of(t, {}) == fld for t in stores_in(n))
+                mut = any(isinstance(c.func, ast.Attribute) and c.func.attr in ("append", "extend", "insert", "__iadd__") and ctx.facts.field_of(c.func.value, {}) == fld for c in calls_in(n))
+                if (wr and not clears(n, fld)) or mut:
+                    requeue = (n, fld)
+            stack.extend(t for l, t in n.succ)
+        if requeue is not None:
+            ctx.fail("R05.h", fl, requeue[0], "when a watcher raises during the flush, `%s` puts entries back into %s: the object is left outside any batch with a non-empty queue, "
+                     "delivered by whatever unrelated assignment comes next" % (requeue[0].text()[:70], requeue[1]),
+                     key=fl.qualname + "::requeue-on-failure::" + requeue[1],
+                     input="two watchers on different parameters, the first one (by precedence) raises inside batch_call_watchers; a later p.z = 5 also delivers the stale events")
         if bad:
             ctx.fail("R05.h", fl, en, "when a watcher raises during the flush, events queued in the meantime by a queued watcher stay in the queue: they are delivered at some later unrelated assignment",
                      key=fl.qualname + "::leftover-events-on-failure",
@@ -413,6 +432,36 @@ def _extra_rules(ctx, scopes):
                                 input="p.param.update(b=3, a=<rejected>, e=True) leaves Event e in 'set' mode")
                         else:
                             ctx.ok("R05.e", f, h, "every iteration over %s restores %s" % (norm(lp.iter), s.fld))
+    # ---- R05.i  (sibling agreement of the two continuations of a context manager's yield)
+    n_cm = 0
+    for f in ctx.repo.all_funcs():
+        if not f.has_decorator("contextmanager"):
+            continue
+        cfg = ctx.facts.cfg(f)
+        for y in [n for n in cfg.live_nodes() if n.suspend]:
+            def state_stores(starts, normal_only):
+                seen, stack, out = set(), list(starts), {}
+                while stack:
+                    n = stack.pop()
+                    if n.id in seen:
+                        continue
+                    seen.add(n.id)
+                    if n.kind == "stmt" and isinstance(n.ast, (ast.Assign, ast.AugAssign)):
+                        tg = n.ast.targets if isinstance(n.ast, ast.Assign) else [n.ast.target]
+                        if any(isinstance(t, (ast.Attribute, ast.Subscript)) for t in tg):
+                            out.setdefault(norm(n.ast), n)
+                    stack.extend(t for l, t in n.succ if not (normal_only and l == "e"))
+                return out
+            nrm = state_stores([t for l, t in y.succ if l != "e"], True)
+            exc = state_stores([t for l, t in y.succ if l == "e"], False)
+            n_cm += 1
+            missing = [k for k in nrm if k not in exc]
+            if missing:
+                ctx.fail("R05.i", f, nrm[missing[0]], "the context manager %s undoes state with `%s` when its body ends normally, but no such write is on the way out when the body raises: "
+                         "a failing body leaves that state as the body had it" % (f.name, missing[0][:90]), key="%s::normal-only-restore::%s" % (f.qualname, missing[0][:60]),
+                         input="with %s(obj): <something that makes the restore necessary>; raise ...  -> the state written by `%s` is not restored" % (f.name, missing[0][:50]))
+            else:
+                ctx.ok("R05.i", f, y, "%d state write(s) after the yield, each also present on the exceptional way out" % len(nrm))
     # ---- R05.f
     for s in scopes:
         f, cfg = s.f, s.cfg
